@@ -1,6 +1,7 @@
 import AtreeModel.World
 import AtreeModel.Map.Dump
 import AtreeModel.Replay.Common
+import AtreeModel.Replay.WorldCodec
 /- Replays the nested-container stream on the World model. -/
 namespace Atree.Replay
 open Atree
@@ -63,6 +64,8 @@ structure WState where
   handles : AList Nat SlabID := []
   aux : AList SlabID Elem := []
   pending : List String := []
+  /-- the codec-level slabs (`World.toCodec`) of the IDs the last operation stored -/
+  codec : List (SlabID × Codec.Slab) := []
   rep : Report := {}
 
 namespace WState
@@ -102,8 +105,11 @@ def effectLines (w : World) (aux : AList SlabID Elem) (c : Ctx) : List String :=
 
 def commit (s : WState) (w : World) (c : Ctx) (obs : List String) : WState :=
   let aux := c.created.foldl (fun a p => AList.insert a p.1 p.2) s.aux
+  let stored := Dump.storedIDs c.eff
+  let heap := if stored.isEmpty then [] else w.codecHeap
   { s with w := w, alloc := AList.insert s.alloc w.addr c.ctr, aux := aux,
-           pending := obs ++ effectLines w aux c }
+           pending := obs ++ effectLines w aux c,
+           codec := stored.filterMap (fun id => (AList.find? heap id).map (fun sl => (id, sl))) }
 
 def werr : WErr → String
   | .arr e => Dump.aerr e
@@ -260,7 +266,16 @@ def stepLine (s : WState) (line : String) (lineNo : Nat) : WState :=
         let same := p == line ||
           (line.startsWith "OBS ok:*," && p.startsWith "OBS ok:" &&
             (line.drop 9).toString == ((p.splitOn ",").drop 1 |> ",".intercalate))
-        if same then s
+        if same then
+          -- the translation `World.toCodec` against the slab parsed from the implementation's dump
+          if kind == "SLB" && !line.startsWith "SLB MISSING" then
+            let s := { s with rep := { (s.rep.tag "SLB:codec") with compared := s.rep.compared + 1 } }
+            let (res, tags) := checkSLB s.codec s.aux (sdrop line 4)
+            let s := { s with rep := tags.foldl (fun r t => r.tag t) s.rep }
+            match res with
+            | none => s
+            | some msg => s.note s!"line {lineNo}: {msg}"
+          else s
         else s.note s!"line {lineNo}: differs\n  model: {p}\n  impl : {line}"
     else s
   | [] => s
